@@ -148,6 +148,10 @@ static void do_line(char *work, const char *orig) {
 					printf("R%d:%d:%d:%d:p%zu:w%zu", r, idx, h->state, h->err, pending, waiting);
 					KSI_AsyncHandle_free(h);
 				}
+			} else if (!strncmp(tok, "g:", 2)) {
+				int r = KSI_AsyncService_setOption(as, KSI_ASYNC_OPT_REQUEST_CACHE_SIZE, (void *)(size_t)atoi(tok + 2));
+				if (!first) putchar(' '); first = 0;
+				printf("G%d:%d", r, atoi(tok + 2));
 			} else if (!strncmp(tok, "net:", 4)) {
 				char *f[5]; int nf = 0; char *p = tok;
 				while (nf < 5) { f[nf++] = p; p = strchr(p, ':'); if (!p) break; *p++ = 0; }
